@@ -49,19 +49,20 @@ sed "s#=> /repo#=> $SCR/repo#" "$VERIF/go.mod" > "$SCR/go.mod"
 cp "$VERIF/go.sum" "$SCR/go.sum"
 
 if [ "$ID" = "selftest-instrument" ]; then
-  # the rewritten tree must still pass the repository's own test suite
-  # (simulator inactive => every Yield is a no-op)
-  mkdir -p "$SCR/repo/zz_verif_simrt"
-  ( cd "$SCR/repo" && rm -rf zz_verif_simrt \
-    && mkdir -p "$SCR/stub/verif/simrt" && cp "$VERIF/simrt/simrt.go" "$SCR/stub/verif/simrt/" \
-    && printf 'module verif\n\ngo 1.21\n' > "$SCR/stub/verif/go.mod" \
-    && printf '\nrequire verif v0.0.0\nreplace verif => %s\n' "$SCR/stub/verif" >> go.mod \
-    && go test -race -vet=off -count=1 ./... 2>&1 | tee "$SCR/test.log" | grep -v "^ok\|no test files" ; \
-    FAILS=$(grep -c "^--- FAIL" "$SCR/test.log"); \
-    ONLY=$(grep "^--- FAIL" "$SCR/test.log" | grep -vc "TestAsyncClient"); \
-    echo "selftest-instrument: $FAILS failing top-level tests, $ONLY other than TestAsyncClient (needs Redis; BASELINE always_fail)"; \
-    [ "$ONLY" = "0" ] ) || exit 1
-  exit 0
+  # the rewritten tree must still pass the repository's own test suite under
+  # -race (simulator inactive => every Yield is a no-op, locks are try-lock spins)
+  mkdir -p "$SCR/stub/verif/simrt" "$SCR/stub/verif/stublog"
+  cp "$VERIF/simrt/simrt.go" "$SCR/stub/verif/simrt/"; cp "$VERIF/stublog/stublog.go" "$SCR/stub/verif/stublog/"
+  printf 'module verif\n\ngo 1.21\n' > "$SCR/stub/verif/go.mod"
+  printf '\nrequire verif v0.0.0\n\nreplace verif => %s\n' "$SCR/stub/verif" >> "$SCR/repo/go.mod"
+  ( cd "$SCR/repo" && go test -race -vet=off -count=1 ./... > "$SCR/test.log" 2>&1 )
+  grep -E "^(ok|FAIL|---)" "$SCR/test.log" | grep -v "^ok" | head -20
+  OTHER=$(grep "^--- FAIL" "$SCR/test.log" | grep -vc "TestAsyncClient")
+  BUILDFAIL=$(grep -c "\[build failed\]\|cannot find\|undefined:" "$SCR/test.log")
+  OKS=$(grep -c "^ok" "$SCR/test.log")
+  echo "selftest-instrument: $OKS packages ok; failing tests other than TestAsyncClient (needs Redis; BASELINE always_fail): $OTHER; build failures: $BUILDFAIL"
+  [ "$OTHER" = "0" ] && [ "$BUILDFAIL" = "0" ] && [ "$OKS" -ge 10 ] && exit 0
+  tail -30 "$SCR/test.log"; exit 1
 fi
 
 # --- sync.Pool seam: under the race detector Pool.Put drops objects at random
